@@ -3,13 +3,17 @@ from runner import CbmcUnit, Entry
 
 def units(tier):
     q = tier == "quick"
-    nops, nbody = (2, 1) if q else (3, 2)
+    nops, nbody = (1, 1) if q else (2, 2)
     uw = nops + nbody + 3
+    D = ("P1 no body begins after stop() returned; P2 no lost wake-up after start(); P3 destructor's notify un-parks the thread and it joins")
     return [CbmcUnit("asyncloop", "harness/C03_asyncloop.cpp", [
-        Entry("vp_main_thread_launch", unwind=uw, timeout=1200 if q else 3600,
-              desc="THREAD launch: every sequence of <= %d controller operations over {start, stop, destroy}, each injected (run to completion) at every loop-thread scheduling point; "
-                   "P1 no body begins after stop() returned; P2 no lost wake-up after start(); P3 destructor's notify un-parks the thread and it joins" % nops,
-              bounds="<= %d controller operations, <= %d body invocations (unwinding assumption), unwind %d" % (nops, nbody, uw))],
+        Entry("vp_main_thread_launch", unwind=uw, timeout=1500 if q else 6000,
+              desc="THREAD launch from a fresh (never started) loop: every sequence of <= %d further controller operations over {start, stop, destroy}, each injected (run to completion) at every "
+                   "loop-thread scheduling point; %s" % (nops, D),
+              bounds="<= %d controller operations, <= %d body invocations (unwinding assumption), unwind %d" % (nops, nbody, uw)),
+        Entry("vp_main_thread_launch_started", unwind=uw, timeout=1500 if q else 6000,
+              desc="same, after a start() that already returned (loop running): %s" % D,
+              bounds="<= %d controller operations after the initial start, <= %d body invocations, unwind %d" % (nops, nbody, uw))],
         defines=["NOPS=%d" % nops, "NBODY=%d" % nbody], heap_max=64, validate=False, native_defines=["VP_NATIVE_BUILD"], c_defines=["VP_YIELD_BLOCKS"], object_bits=9,
         assumptions=["interleavings at the RKCOMMON_VERIF scheduling points of the loop thread with complete controller operations; schedules where the controller is suspended mid-operation "
                      "(points D-G) while the loop thread runs, weak memory, and the TBB execution of a TASK-launched loop are outside", "condition_variable: wake-up only by notify (no spurious wake-ups)",
